@@ -796,6 +796,17 @@ async fn run_substitution_command(
     mut params: ExecutionParameters,
     command: String,
 ) -> Result<ExecutionResult, error::Error> {
+    // Positions inside the substitution are relative to its own text; carry over the line of
+    // the command that contains it, so that `$LINENO` keeps counting in the enclosing source
+    // (however that source was delivered).
+    if let Some(line) = shell
+        .call_stack()
+        .current_frame()
+        .and_then(|frame| frame.current.as_ref().map(|pos| pos.line))
+    {
+        shell.increment_interactive_line_offset(line.saturating_sub(1));
+    }
+
     // Parse the string into a whole shell program.
     let parse_result = shell.parse_string(command);
 
